@@ -184,6 +184,8 @@ func init() {
 		switch args[0] {
 		case "bytes":
 			r = bytes.NewReader(bs) // has ReadByte; consumption measured through Len below
+		case "buffer":
+			r = bytes.NewBuffer(append([]byte{}, bs...)) // *bytes.Buffer: ReadByte, Next, ReadFrom ... fast paths must behave like the generic path
 		case "plain":
 			r = struct{ io.Reader }{cr}
 		case "one":
@@ -230,6 +232,9 @@ func init() {
 		used := cr.n
 		if br, ok := r.(*bytes.Reader); ok {
 			used = len(bs) - br.Len()
+		}
+		if bb, ok := r.(*bytes.Buffer); ok {
+			used = len(bs) - bb.Len()
 		}
 		return fmt.Sprintf("ok %d %s", used, strings.Join(out, ","))
 	})
